@@ -171,6 +171,39 @@ CHECKS.update({
         technique=ADV_TECH),
 })
 
+CHECKS.update({
+    "C10": dict(
+        category="model_checking", design_ref="DESIGN.md 4 C10",
+        text="The relations ShareRel, TripleRel and SameCoins are TLA+ operators (Mon_C10 / Limbs); the real distributed "
+             "preprocessing (coin tossing, aShare incl. its sacrifice check, LaAND, bucketing, Beaver) and the real trusted dealer "
+             "are run through verification wrappers for n=2..5 and batch lengths around every boundary (1, 2, 7..9, 127..129, "
+             "999..1001, 3099/3100 thorough, bucket sizes 5 and 4), each party's shares, keys, MACs and global key are exported as "
+             "16-bit limbs and TLC evaluates the relations for every ordered pair and every (sampled for long batches) index.",
+        note="Values exported by the wrappers are those handed to the online phase. Bucket size 3 (>= 280000 triples per batch) "
+             "is out of reach. This check evaluates relations on recorded outputs; it explores no state space of its own.",
+        technique="TLA+ relation operators evaluated by TLC on outputs recorded from the real preprocessing (trace checking)"),
+    "C11": dict(
+        category="model_checking", design_ref="DESIGN.md 4 C11",
+        text="Real KOS/ALSZ/Chou-Orlandi sessions for every length 1..40, 8k+-1, 128k+-1, 1023..1025, 4095, 4096 (thorough: every "
+             "length 1..4096) with all-0, all-1 and random choice vectors, random correlations, single sessions and "
+             "sender-then-receiver / receiver-then-sender pairs on one 1-slot channel sharing one random stream, under the "
+             "deterministic executor; TLC (Mon_C11) checks recv[i] = send[i] XOR c[i]*d[i] at every index, result lengths, equal "
+             "stream positions afterwards, and the size of every message against the session part of Skeleton.tla.",
+        note="The ideal-functionality relation is checked on recorded outputs; KOS soundness is assumed.",
+        technique="TLA+ relation + session skeleton evaluated by TLC on recorded real sessions (trace checking)"),
+    "C20": dict(
+        category="exploration", design_ref="DESIGN.md 4 C20, 5",
+        text="Prims.tla defines transpose (Out[j][i] = In[i][j], LSB first), the carry-less product over GF(2)[x] with (low, high) "
+             "split, CR(x) = pi(x) XOR x, TCCR(t,x) = pi(pi(x) XOR t) XOR pi(x) and the counter-mode keystream, with AES as an "
+             "uninterpreted permutation given by table. Both code paths (dispatching / portable-scalar) are recorded for 128 x c "
+             "matrices (c = 16..4096), random shapes and unaligned buffers, basis pairs x^i * x^j, sparse / dense / all-ones / "
+             "random operands, random blocks and tweaks (incl. zero tweak), generator requests of lengths 0..1100; TLC evaluates "
+             "the definitions on every record. Weakest fit of the technique: no state space, TLA+ serves as executable "
+             "definition only.",
+        note="AES-128 (the aes crate) is trusted. Large matrices: border rows/columns, a seeded sample and population counts.",
+        technique="TLA+ definitional operators evaluated by TLC on recorded I/O of both implementations"),
+})
+
 NA = {}
 
 
